@@ -66,6 +66,10 @@ def hx(b: bytes) -> str:
 # ---------------------------------------------------------------------------------------------
 
 
+HIGH_WATER = 64 * 1024  # a single write beyond this fills the buffer: the protocol is told to pause
+LOSS_CLASSES = {"reset": ConnectionResetError, "pipe": BrokenPipeError, "abort": ConnectionAbortedError}
+
+
 class FakeTransport(asyncio.Transport):
     """Records what is written; the harness decides when it pauses, drains or loses the peer."""
 
@@ -76,10 +80,25 @@ class FakeTransport(asyncio.Transport):
         self.data = bytearray()
         self.closing = False
         self.lost = False
+        self.paused = False
+        self.fail_write = None  # exception class raised by `write` once the peer is lost
 
     def write(self, data):
-        if not self.lost:
-            self.data += bytes(data)
+        if self.lost:
+            if self.fail_write is not None:
+                raise self.fail_write(32, "lost (write)")
+            return
+        self.data += bytes(data)
+        if len(data) > HIGH_WATER and not self.paused:
+            self.pause()
+
+    def pause(self):
+        self.paused = True
+        self.protocol.pause_writing()
+
+    def resume(self):
+        self.paused = False
+        self.protocol.resume_writing()
 
     def is_closing(self):
         return self.closing
@@ -97,17 +116,34 @@ class FakeTransport(asyncio.Transport):
             self.lost = True
             self.protocol.connection_lost(exc)
 
-    def lose(self):
+    def lose(self, cls=ConnectionResetError, site="d"):
+        """The peer vanishes: a pending `drain()` gets `cls`; later `write` (site w) or `drain` (site d) raise it."""
         self.closing = True
-        self._lost(ConnectionResetError("peer vanished"))
+        if site == "w":
+            self.fail_write = cls
+        else:
+            self.protocol.drain_error = cls
+        self._lost(cls(32, "peer vanished"))
 
     def get_extra_info(self, name, default=None):
         return default
 
 
+class LossyProtocol(asyncio.StreamReaderProtocol):
+    """`drain()` after the loss raises the error class chosen by the harness (asyncio's own protocol
+    always turns it into `ConnectionResetError('Connection lost')`, a kernel socket may report EPIPE)."""
+
+    drain_error = None
+
+    async def _drain_helper(self):
+        if self._connection_lost and self.drain_error is not None:
+            raise self.drain_error(32, "lost (drain)")
+        await super()._drain_helper()
+
+
 def make_writer(loop):
     tr = FakeTransport(loop)
-    proto = asyncio.StreamReaderProtocol(asyncio.StreamReader(), loop=loop)
+    proto = LossyProtocol(asyncio.StreamReader(), loop=loop)
     tr.protocol = proto
     proto.connection_made(tr)
     return asyncio.StreamWriter(tr, proto, None, loop), tr, proto
@@ -217,6 +253,7 @@ class Handler:
         self.started = []  # tags, in the order the procedures were entered
         self.futs = {}
         self.cancelled = []
+        self.inside = set()  # tags whose future the harness cancels: a CancelledError from inside
         self.forbidden = []  # names of non-exposed procedures that were entered
 
     async def _block(self, tag):
@@ -226,7 +263,8 @@ class Handler:
         try:
             kind, val = await fut
         except asyncio.CancelledError:
-            self.cancelled.append(tag)
+            if tag not in self.inside:
+                self.cancelled.append(tag)
             raise
         if kind == "raise":
             raise val
@@ -301,6 +339,8 @@ def reply_kind(body) -> tuple[str, object]:
     if ((obj.module, obj.qualname, obj.usage) == (X.RPCError.__module__, "RPCError", False)
             and obj.message.startswith(REJECTION_PREFIXES)):
         return "fr", obj
+    if (obj.module, obj.qualname, obj.usage) == ("asyncio.exceptions", "CancelledError", False):
+        return "fc", obj
     idx = pool_index(obj.module, obj.qualname)
     if idx is None:
         return f"f?{obj.qualname}", obj
@@ -365,12 +405,16 @@ class ConnSim:
         self.seen_cancelled = 0
         self.replies: list = []  # (call id, kind, payload)
         self.injected: dict = {}  # tag -> ("ok", value) | ("raise", idx)
-        self.paused = False
+        self.impl_events: list = []  # what was applied, exactly (for replays)
         self.lost = False
         self.eof = False
         self.completed_live: list = []  # tags completed while no end-of-connection event had happened
         self.ending = False  # an event that may end the connection was applied
         self.clean_eof = False
+
+    @property
+    def paused(self) -> bool:
+        return self.tr.paused
 
     def mine(self, tag) -> bool:
         return tag in self.tags
@@ -382,6 +426,7 @@ class ConnSim:
     async def apply(self, tok: str, arg=None):
         """Apply one event to the implementation and record the observation."""
         h = self.handler
+        self.impl_events.append([tok, bytes(arg).hex() if tok == "b" else list(arg) if arg is not None else None])
         if tok == "b":
             self.reader.feed_data(bytes(arg))
             self.fed += arg
@@ -405,26 +450,29 @@ class ConnSim:
             self.ending = True
             self.events.append("s")
         elif tok == "p":
-            self.proto.pause_writing()
-            self.paused = True
+            self.tr.pause()
             self.events.append("p")
         elif tok == "d":
-            self.proto.resume_writing()
-            self.paused = False
+            self.tr.resume()
             self.events.append("d")
         elif tok == "l":
-            self.tr.lose()
+            cls, site = arg if arg is not None else ("reset", "d")
+            self.tr.lose(LOSS_CLASSES[cls], site)
             self.lost = True
             self.ending = True
-            self.events.append("l")
+            self.events.append(f"l:{cls}:{site}")
         elif tok == "c":
             tag, out = arg
             k = self.invoked.index(tag)
             fut = h.futs[tag]
-            if out == "r":
-                val = ("value", tag)
+            if out in ("r", "R"):
+                val = ("value", tag) if out == "r" else ("value", tag, bytes(3 * HIGH_WATER))
                 fut.set_result(("ok", val))
                 self.injected[tag] = ("ok", val)
+            elif out == "k":
+                h.inside.add(tag)
+                fut.cancel()  # what the handler awaits is cancelled by somebody else
+                self.injected[tag] = ("cancel-inside", None)
             elif out == "n":
                 fut.set_result(("ok", lambda: None))
                 self.injected[tag] = ("unpicklable", None)
@@ -624,8 +672,12 @@ async def drive_random(r, sims: list[ConnSim], plans: list[dict]):
         elif tok == "c":
             tag = r.choice(pend)
             k = r.random()
-            if k < 0.55:
+            if k < 0.45:
                 out = "r"
+            elif k < 0.50:
+                out = "R"
+            elif k < 0.60:
+                out = "k"
             elif k < 0.78:
                 out = f"u{r.choice(USAGE_IDX)}"
             elif k < 0.96 or not plan["faults"]:
@@ -633,6 +685,8 @@ async def drive_random(r, sims: list[ConnSim], plans: list[dict]):
             else:
                 out = "n"
             await sim.apply("c", (tag, out))
+        elif tok == "l":
+            await sim.apply("l", (r.choice(sorted(LOSS_CLASSES)), r.choice("wd")))
         else:
             await sim.apply(tok)
     await finish_all(r, sims)
@@ -645,7 +699,9 @@ async def finish_all(r, sims: list[ConnSim]):
         if sim.paused:
             await sim.apply("d")
         for tag in sim.pending_tags():
-            await sim.apply("c", (tag, r.choice(["r", f"u{USAGE_IDX[0]}", f"i{INTERNAL_IDX[0]}"])))
+            await sim.apply("c", (tag, r.choice(["r", "k", f"u{USAGE_IDX[0]}", f"i{INTERNAL_IDX[0]}"])))
+            if sim.paused:  # a big reply filled the buffer
+                await sim.apply("d")
         if not sim.eof and not sim.task.done():
             await sim.apply("e")
         # the implementation may still have handlers the model does not know of: they would hang here
@@ -1011,6 +1067,61 @@ async def offset_family(ctx, r, newtag, *, check):
                 await check([sim], [fed], handler)
 
 
+def plain_sim(handler, newtag, ncalls: int):
+    """A connection with `ncalls` good calls of `work`, ids 1..n."""
+    sim = ConnSim(handler, 0)
+    sim.frames, sim.hung = [], False
+    data = bytearray()
+    tags = []
+    for i in range(ncalls):
+        tag = newtag()
+        sim.tags[tag] = i + 1
+        tags.append(tag)
+        data += R._encode_message(i + 1, R._encode_body(RPCCall("work", (tag,), {})))
+    return sim, bytes(data), tags
+
+
+async def fault_families(ctx, r, newtag, *, check):
+    """Writer loss with every ConnectionError subclass, raised by `write` and by `drain`, while the send loop
+    is idle, waits for a paused writer, or waits behind a reply bigger than the buffer, with other calls in
+    flight; and a handler cancelled from inside in every position."""
+    for cls in sorted(LOSS_CLASSES):
+        for site in "wd":
+            for state in ("idle", "paused", "big"):
+                for after in ("r", "u0", "k"):
+                    handler = Handler()
+                    sim, data, tags = plain_sim(handler, newtag, 4)
+                    await asyncio.wait_for(settle(), TIMEOUT)
+                    await sim.apply("b", data)
+                    if state == "paused":
+                        await sim.apply("p")
+                        await sim.apply("c", (tags[1], "r"))
+                    elif state == "big":
+                        await sim.apply("c", (tags[1], "R"))
+                    await sim.apply("l", (cls, site))
+                    await sim.apply("c", (tags[0], after))  # a reply attempted on the lost writer
+                    await sim.apply("c", (tags[2], "r"))
+                    await finish_all(r, [sim])
+                    await check([sim], [data], handler)
+    for n in (1, 2, 3):
+        for pos in range(n):
+            for paused in (False, True):
+                handler = Handler()
+                sim, data, tags = plain_sim(handler, newtag, n)
+                await asyncio.wait_for(settle(), TIMEOUT)
+                await sim.apply("b", data)
+                if paused:
+                    await sim.apply("p")
+                await sim.apply("c", (tags[pos], "k"))
+                for t in tags:
+                    if t != tags[pos]:
+                        await sim.apply("c", (t, "r"))
+                if paused:
+                    await sim.apply("d")
+                await finish_all(r, [sim])
+                await check([sim], [data], handler)
+
+
 async def correspond_conn(ctx):
     r = ctx.rng("conn")
     st = ctx.stats
@@ -1024,6 +1135,7 @@ async def correspond_conn(ctx):
 
     await run_conn_batch(ctx, r, ctx.budget(1500, 12000), check=check)
     await offset_family(ctx, r, TagSource(), check=check)
+    await fault_families(ctx, r, TagSource(), check=check)
     ans = common.run_driver([line for _, line in pending])
     for (sim, line), a in zip(pending, ans):
         nontrivial = len(sim.invoked) > 0 or len(sim.replies) > 0
@@ -1274,7 +1386,7 @@ def oracle_conn(ctx, sim: ConnSim, handler: Handler, where: str):
     # each reply to an invoked call must be what the handler produced, under the id of that call
     by_payload = {}
     for cid, kind, payload in sim.replies:
-        if kind == "v" and isinstance(payload, tuple) and len(payload) == 2 and payload[0] == "value":
+        if kind == "v" and isinstance(payload, tuple) and len(payload) >= 2 and payload[0] == "value":
             by_payload.setdefault(("ok", payload[1]), []).append(cid)
         elif isinstance(payload, RemoteFailure) and kind[:2] in ("fu", "fi") and re.search(r"tag=(\d+);", payload.message):
             tag = int(re.search(r"tag=(\d+);", payload.message).group(1))
@@ -1298,6 +1410,28 @@ def oracle_conn(ctx, sim: ConnSim, handler: Handler, where: str):
         if len(got) == 0 and clean_end and tag in sim.completed_live:
             ctx.finding(Finding(PID, "reply-missing", f"the call with id {sim.tags[tag]} completed while the connection "
                                 "was live and was never answered", detail))
+    # handlers that raised CancelledError from inside: an error reply under their id, like any internal fault
+    want_fc: dict[int, int] = {}
+    live_fc: dict[int, int] = {}
+    for tag, inj in sim.injected.items():
+        if inj[0] == "cancel-inside":
+            want_fc[sim.tags[tag]] = want_fc.get(sim.tags[tag], 0) + 1
+            if tag in sim.completed_live:
+                live_fc[sim.tags[tag]] = live_fc.get(sim.tags[tag], 0) + 1
+    got_fc: dict[int, int] = {}
+    for cid, kind, _payload in sim.replies:
+        if kind == "fc":
+            got_fc[cid] = got_fc.get(cid, 0) + 1
+    for cid, n in got_fc.items():
+        if n > want_fc.get(cid, 0):
+            ctx.finding(Finding(PID, "duplicate-reply", f"{n} CancelledError replies under id {cid} for "
+                                f"{want_fc.get(cid, 0)} such handler(s)", detail))
+    if clean_end:
+        for cid, n in live_fc.items():
+            if got_fc.get(cid, 0) < n:
+                ctx.finding(Finding(PID, "reply-missing", f"the handler of the call with id {cid} ended on a "
+                                    "CancelledError from inside while the connection was live and the call was "
+                                    "never answered", detail))
     if getattr(sim, "clean", False) and clean_end and sent_ids != recv_ids:
         ctx.finding(Finding(PID, "reply-missing", "a connection without faults did not answer every call exactly once",
                             {**detail, "received": recv_ids, "replied": sent_ids}))
@@ -1567,6 +1701,7 @@ async def search(ctx):
 
     await run_conn_batch(ctx, r, ctx.budget(1200, 10000), check=check)
     await offset_family(ctx, r, TagSource(), check=check)
+    await fault_families(ctx, r, TagSource(), check=check)
     with debug_env(False):
         await oracle_director_names(ctx)
         await oracle_real_socket(ctx)
